@@ -143,6 +143,11 @@ func (m *Machine) crepInvariants(n *Node) {
 	m.DeclareRange(n.CRep, big.NewInt(0), big.NewInt(2))
 	m.AddBase(c.Implies(c.Or(n.TagIs(TagNull), n.TagIs(TagBool), n.TagIs(TagNumber)), c.Eq(n.CRep, c.Int(0))))
 	m.AddBase(c.Implies(n.TagIs(TagString), c.Le(n.CRep, c.Int(1))))
+	if n.Tm.NamedKeyMapsOnly {
+		// only the object representation varies: map[string]any or map[NamedKey]any
+		m.AddBase(c.Implies(c.Not(n.TagIs(TagObject)), c.Eq(n.CRep, c.Int(0))))
+		m.AddBase(c.Implies(n.TagIs(TagObject), c.Or(c.Eq(n.CRep, c.Int(CRepCanonical)), c.Eq(n.CRep, c.Int(CRepAlt)))))
+	}
 }
 
 // TypedContainer returns the term "n is an array or object whose element type is concrete (not any)".
